@@ -1,7 +1,7 @@
 (* Tie: the terms regenerated from vgi_rpc/external.py, metadata.py, log.py, rpc/_wire.py, http/_client.py
    (gen/G_ExtStore.v, rewritten on every run) are the terms the C30 model and theorems are about. *)
 From Coq Require Import List NArith Bool.
-From VGI Require Import Corr M_ExtStore L_ExtStore G_ExtStore P_C30.
+From VGI Require Import Corr M_ExtStore L_ExtStore L_ExtStoreTransp G_ExtStore P_C30.
 Import ListNotations.
 Open Scope N_scope.
 
@@ -10,7 +10,7 @@ Theorem C30_source_constants :
   gen_K_LEVEL = K_LEVEL /\ gen_K_MSG = K_MSG /\ gen_LEVELS = LEVELS /\ gen_L_EXCEPTION = L_EXCEPTION /\
   gen_RETRY_CAP = RETRY_CAP /\ gen_RETRY_TYPES = RETRY_TYPES /\
   gen_CHECK_ORDER = CHECK_ORDER /\ gen_BATCH_GUARDS = BATCH_GUARDS /\ gen_COLLECTOR_GUARDS = COLLECTOR_GUARDS /\
-  gen_collector_serializes_all = COLLECTOR_SERIALIZES_ALL /\ gen_request_pointer_has_sha = REQUEST_POINTER_HAS_SHA.
+  gen_request_pointer_has_sha = REQUEST_POINTER_HAS_SHA.
 Proof. repeat split; reflexivity. Qed.
 
 (* the integrity theorem restated over the regenerated metadata keys: this is the statement about the source *)
@@ -24,4 +24,27 @@ Theorem C30_source_never_hand_corrupt : forall hc mr ol p fetch lg d,
 Proof.
   destruct C30_source_constants as (E1 & E2 & _ & _ & _ & _ & _ & _ & E9 & _).
   rewrite E1, E2, E9. exact C30_never_hand_corrupt.
+Qed.
+
+(* cycle transparency over the regenerated shape of maybe_externalize_collector: while the source serialises the
+   whole cycle (gen_collector_serializes_all = true) the EXCEPTION-after-data side condition is needed; once the
+   batches after the data batch stay inline the statement is unconditional *)
+Theorem C30_source_transparent_cycle :
+  forall (B : Type) (sha : B -> bytes) (parse : B -> list item) (ser : N -> list batch -> B)
+         (encode : option N -> B -> B) (decode : option N -> B -> option B),
+    (forall s bs, Forall (fun b => b_schema b = s) bs -> parse (ser s bs) = map IBatch bs) ->
+    (forall e x, decode e (encode e x) = Some x) ->
+    forall c url s cyc dsz mr fetch,
+      Forall (fun b => b_schema b = s /\ has_loc b = false) cyc ->
+      (forall sz, dsz = Some sz -> exists d, L_ExtStoreTransp.datas cyc = [d]) ->
+      (gen_collector_serializes_all = true -> L_ExtStoreTransp.exc_after_data false cyc = false) ->
+      (forall u, snd (ext_collector gen_collector_serializes_all (sha_ser_of B sha ser) url c s cyc dsz) = Some u ->
+                 forall k, fetch url k = fetch_obj B sha parse decode (Some (stored B ser encode u))) ->
+      L_ExtStoreTransp.equiv
+        (drain (fun b => resolve_with true mr true b fetch)
+               (fst (ext_collector gen_collector_serializes_all (sha_ser_of B sha ser) url c s cyc dsz)))
+        (drain (fun b => resolve_with true mr true b fetch) cyc).
+Proof.
+  intros B sha parse ser encode decode H1 H2 c url s cyc dsz mr fetch.
+  exact (C30_transparent_cycle_partial B sha parse ser encode decode H1 H2 gen_collector_serializes_all c url s cyc dsz mr fetch).
 Qed.
